@@ -85,23 +85,46 @@ def tropical_graph():
         "topology": lambda: topo,
         "num_massive_edges": lambda: Num(Expr.symbol("n_massive")),
         "external_vertices": lambda: Opaque("externals"),
-    }, calls={"get_full_subgraph_id": lambda I, a: GraphIdVal("full")})
+    })
 
 
 class GraphIdVal(Model):
+    """Abstract subgraph id named by a key; its methods are provided as role hooks (id_hooks), never by method name."""
     def m_subst(self, m):
         from .expr import cond_subst
         return GraphIdVal(cond_subst(self.key_, m))
 
     def __init__(self, key):
         self.key_ = key
-        Model.__init__(self, "graph(%s)" % key, {"id": lambda: Num(Expr.zero(), ent=key), "num_edges": lambda: num_size("E")}, calls={
-            "get_id": lambda I, a: Num(Expr.zero(), ent=self.key_),
-            "is_empty": lambda I, a: Cond("key", "empty(%s)" % self.key_),
-            "has_one_edge": lambda I, a: Cond("key", "one_edge(%s)" % self.key_),
-            "pop_edge": lambda I, a: GraphIdVal("pop(%s,«%s»)" % (self.key_, I.ent_of(a[0]))),
-            "contains_edges": lambda I, a: Arr(("edges(%s)" % self.key_,), lambda k: Num(Expr.leaf("$ix", k), ent=k), name="edges(%s)" % self.key_),
-        })
+        Model.__init__(self, "graph(%s)" % key, {})
+
+    def m_project(self, I, name):
+        # (mask, extent) fields
+        if name == getattr(GraphIdVal, "mask_field", "id"):
+            return Num(Expr.zero(), ent=self.key_)
+        return num_size("E")
+
+
+def id_hooks(idr, full_id_body=None):
+    """Interpreter hooks giving the abstract id its methods, keyed by the bodies that play the roles."""
+    GraphIdVal.mask_field = idr.get("mask_field", "id")
+
+    def guard(fn):
+        def h(I, c, a):
+            if a and isinstance(a[0], GraphIdVal):
+                return fn(I, a)
+            return NotImplemented
+        return h
+    hooks = {
+        idr["get_id"].path: guard(lambda I, a: Num(Expr.zero(), ent=a[0].key_)),
+        idr["is_empty"].path: guard(lambda I, a: Cond("key", "empty(%s)" % a[0].key_)),
+        idr["has_one_edge"].path: guard(lambda I, a: Cond("key", "one_edge(%s)" % a[0].key_)),
+        idr["pop_edge"].path: guard(lambda I, a: GraphIdVal("pop(%s,«%s»)" % (a[0].key_, I.ent_of(a[1])))),
+        idr["contains_edges"].path: guard(lambda I, a: Arr(("edges(%s)" % a[0].key_,), lambda k: Num(Expr.leaf("$ix", k), ent=k), name="edges(%s)" % a[0].key_)),
+    }
+    if full_id_body is not None:
+        hooks[full_id_body.path] = lambda I, c, a: GraphIdVal("full") if a and isinstance(a[0], Model) and a[0].name == "tropical_graph" else NotImplemented
+    return hooks
 
 
 def table():
